@@ -24,7 +24,7 @@ RULE = ("case 'conv' = (generated DBC matrix with unique frame names, signal nam
         "unknown names, comma lists, glob patterns where the called method takes them, `*` prefix/suffix forms of the rename "
         "methods, thresholds below, at and above existing lengths; invocation through canmatrix.convert.convert or through the click "
         "command): the output DBC file re-read and reduced to names, ids, lengths, FD flag, senders, signals with position, length, "
-        "receivers and user attributes, and the ECU list closed under references. Non-trivial = distinct case with an option that "
+        "30 % of the extended identifiers are numbers below 0x800. receivers and user attributes, and the ECU list closed under references. Non-trivial = distinct case with an option that "
         "changes the matrix.")
 PARTIAL = ["merge, signals, compressFrame (C16), deleteObsoleteDefines (C11), signalNameFromAttrib and the ARXML/PDU-container rewrite are "
            "not modelled", "only DBC input and output files", "the selection options are specified by the model of copy.py (C12), not by "
@@ -51,6 +51,8 @@ def gen_matrix(rng):
         ext = rng.random() < 0.3
         while True:
             arbid = rng.randrange(1, 1 << 29) if ext else rng.randrange(1, 1 << 11)
+            if ext and rng.random() < 0.3:
+                arbid = rng.randrange(1, 1 << 11)        # an extended identifier may be a small number
             if arbid not in ids:
                 ids.add(arbid)
                 break
